@@ -4,7 +4,7 @@ import Nstd.Generated.SyncMonitorOrder
 /-
   Line protocol of the Sync area (same lines as harness/sync.cpp):
     reset
-    scen <prim> <init> <sec> <nsec> <quantum_ns> <spur> <eintr> [F:<create failures>] T:<ret>:<op>,<op>,... T:...    -> ok <threads>
+    scen <prim> <init> <sec> <nsec> <quantum_ns> <spur> <eintr> [F:<create failures>] [N:<ENOSYS returns of sem_timedwait>] T:<ret>:<op>,<op>,... T:...    -> ok <threads>
     run <t.a>,<t.a>,... | run - | rrun <seed> <prefix>       -> init:<events> <t.a>/<candidates>:<events> ... | <verdict>
 -/
 open Nstd.Common
@@ -54,11 +54,11 @@ def parseProg (prim : String) (tok : String) : Option (Nat × Array SOp) :=
     if l.length > 64 then none else pure (ret, l.toArray)
   | _ => none
 
-def mkWorld (prim : String) (init sec nsec quantum spur eintr cfail : Nat) (progs : Array (Nat × Array SOp)) : Option World :=
+def mkWorld (prim : String) (init sec nsec quantum spur eintr cfail enosys : Nat) (progs : Array (Nat × Array SOp)) : Option World :=
   let now := sec * 1000000000 + nsec
   let p : Option PrimSt :=
     if prim == "mtx" then some (.mtx Mutex.init)
-    else if prim == "sem" then some (.sem (Sem.init init now eintr))
+    else if prim == "sem" then some (.sem (Sem.init init now eintr enosys))
     else if prim == "sig" then some (.sig (Signal.init (init != 0) now spur))
     else if prim == "mon" then some (.mon (Monitor.init now spur Nstd.Generated.SyncMonitorOrder.setSignalsFirst))   -- the order of set() in the current source
     else if prim == "thr" then some .thr
@@ -69,9 +69,14 @@ def parseScen (ws : List String) : Option World :=
   match ws with
   | "scen" :: prim :: init :: sec :: nsec :: q :: spur :: eintr :: rest => do
     -- optional `F:<n>`: pthread_create may fail n times
-    let (cfail, progs) ← match rest with
+    let (cfail, rest) ← match rest with
       | opt :: more =>
         if opt.startsWith "F:" then (opt.drop 2).toString.toNat?.map fun n => (n, more) else some (0, rest)
+      | [] => some (0, rest)
+    -- optional `N:<n>` (sem only): sem_timedwait may report ENOSYS n times
+    let (enosys, progs) ← match rest with
+      | opt :: more =>
+        if opt.startsWith "N:" then (if prim == "sem" then (opt.drop 2).toString.toNat?.map fun n => (n, more) else none) else some (0, rest)
       | [] => some (0, rest)
     let init ← init.toNat?
     let sec ← sec.toNat?
@@ -84,7 +89,7 @@ def parseScen (ws : List String) : Option World :=
     let ok := ps.all fun (_, ops) => ops.all fun o =>
       match o with | .start j | .mstart j | .join j | .dtor j => j < ps.length | .xstart j k => j < ps.length ∧ k < ps.length | _ => true
     if !ok then none
-    mkWorld prim init sec nsec q spur eintr cfail ps.toArray
+    mkWorld prim init sec nsec q spur eintr cfail enosys ps.toArray
   | _ => none
 
 def parseChoice (s : String) : Option (Nat × Nat) :=
